@@ -70,7 +70,7 @@ def hexs(b):
     return "".join("%02x" % x for x in b)
 
 
-def generate(ctx, iface, methods, valuations, error_status=0, only=None):
+def generate(ctx, iface, methods, valuations, error_status=0, only=None, refdrive=False):
     """-> c source. methods: [(name, params)] (the whole interface: the skeleton needs every
     implementation function); only: names of the methods to call (default all)"""
     only = set(only) if only is not None else {m for m, _ in methods}
@@ -257,8 +257,13 @@ static int32_t transport_invoke(ObjectCxt h, ObjectOp op, ObjectArg *a, ObjectCo
         for mname, _ in methods:
             if mname in only:
                 main.append("  call_%s(target, %d);" % (mname, v))
+    rd = ""
+    if refdrive:
+        rd, calls, _ = refdrive_code(ctx, iface, methods, valuations, only)
+        main.append("  g_status = 0;")
+        main += calls
     main.append("  return 0;\n}")
-    return joined + helpers + "\n".join(main) + "\n"
+    return joined + helpers + rd + "\n".join(main) + "\n"
 
 
 # ------------------------------------------------------------------ expected log (the property, computed independently)
@@ -306,4 +311,162 @@ def expected_log(ctx, iface, methods, valuations, opcodes, plans, error_status=0
                         ret += " %s=len:%d: =%s" % (pn, n, hexs(fbytes(n * es, k, p, v, True, isfloat=isf, elem=es)))
             out.append(("impl", mname, v, impl))
             out.append(("ret", mname, v, ret))
+    return out
+
+
+# ------------------------------------------------------------------ C03: the reference encoder (Mink bundling rule)
+
+def is_data(ctx, t):
+    return not (t == "interface" or t in ctx.ifaces)
+
+
+def ref_plan(ctx, params):
+    """Spec: per direction the bundle members (size-descending, stable) and the discrete data
+    parameters in declaration order; objects in declaration order."""
+    K = Kinds(ctx)
+    plan = {}
+    for d in ("in", "out"):
+        small = [(p, prm) for p, prm in enumerate(params)
+                 if prm[0] == d and is_data(ctx, prm[1]) and prm[2] is None and prm[1] != "buffer" and K.elem_size(prm[1]) <= 16]
+        bundle = sorted(small, key=lambda x: -K.elem_size(x[1][1])) if len(small) >= 2 else []
+        bidx = {p for p, _ in bundle}
+        discrete = [(p, prm) for p, prm in enumerate(params) if prm[0] == d and is_data(ctx, prm[1]) and p not in bidx]
+        objs = [(p, prm) for p, prm in enumerate(params) if prm[0] == d and not is_data(ctx, prm[1])]
+        plan[d] = (bundle, discrete, objs)
+    return plan
+
+
+def ref_buffers(ctx, k, params, v):
+    """-> (list of BI byte lists, list of BO capacities, list of BO byte lists the implementation's
+    outputs encode to)"""
+    K = Kinds(ctx)
+    plan = ref_plan(ctx, params)
+    bi, bocap, bo = [], [], []
+    def img(p, prm, out):
+        t = prm[1]
+        es = K.elem_size(t)
+        return fbytes(es, k, p, v, out, isfloat=K.is_float(t), elem=es)
+    bundle, discrete, _ = plan["in"]
+    if bundle:
+        bi.append(sum((img(p, prm, False) for p, prm in bundle), []))
+    for p, prm in discrete:
+        t, sh = prm[1], prm[2]
+        es = K.elem_size(t)
+        if sh is None and t != "buffer":
+            bi.append(img(p, prm, False))
+        else:
+            n = in_len(k, p, v)
+            bi.append(fbytes(n * es, k, p, v, False, isfloat=K.is_float(t), elem=es))
+    bundle, discrete, _ = plan["out"]
+    if bundle:
+        b = sum((img(p, prm, True) for p, prm in bundle), [])
+        bocap.append(len(b)); bo.append(b)
+    for p, prm in discrete:
+        t, sh = prm[1], prm[2]
+        es = K.elem_size(t)
+        if sh is None and t != "buffer":
+            b = img(p, prm, True)
+            bocap.append(len(b)); bo.append(b)
+        else:
+            cap = out_cap(k, p, v)
+            n = min(cap, out_want(k, p, v))
+            bocap.append(cap * es)
+            bo.append(fbytes(n * es, k, p, v, True, isfloat=K.is_float(t), elem=es))
+    return bi, bocap, bo
+
+
+def ref_counts(ctx, params):
+    plan = ref_plan(ctx, params)
+    def nobj(objs):
+        return sum(1 if prm[2] is None else int(prm[2][1:-1]) for _, prm in objs)
+    return ((1 if plan["in"][0] else 0) + len(plan["in"][1]), (1 if plan["out"][0] else 0) + len(plan["out"][1]),
+            nobj(plan["in"][2]), nobj(plan["out"][2]))
+
+
+def refdrive_code(ctx, iface, methods, valuations, only):
+    """C code that drives the skeleton directly with reference-encoded arguments (no stub) and
+    prints what the skeleton returns; plus the expected lines."""
+    K = Kinds(ctx)
+    code, calls, expected = [], [], []
+    for v in valuations:
+        for k, (mname, params) in enumerate(methods):
+            if mname not in only:
+                continue
+            bi, bocap, bo = ref_buffers(ctx, k, params, v)
+            cnt = ref_counts(ctx, params)
+            plan = ref_plan(ctx, params)
+            fn = "rd_%s_%d" % (mname, v)
+            L = ["static void %s(void) {" % fn, "  g_val = %d;" % v]
+            total = sum(cnt)
+            L.append("  ObjectArg a[%d];" % max(total, 1))
+            idx = 0
+            for j, b in enumerate(bi):
+                L.append("  uint8_t *bi%d = malloc(%d); { static const uint8_t t[] = {%s}; memcpy(bi%d, t, %d); }" % (
+                    j, max(len(b), 1), ", ".join(str(x) for x in b) or "0", j, len(b)))
+                L.append("  a[%d].bi.ptr = bi%d; a[%d].bi.size = %d;" % (idx, j, idx, len(b)))
+                idx += 1
+            for j, cap in enumerate(bocap):
+                L.append("  uint8_t *bo%d = malloc(%d); memset(bo%d, 0xAA, %d); a[%d].b.ptr = bo%d; a[%d].b.size = %d;" % (
+                    j, max(cap, 1), j, max(cap, 1), idx, j, idx, cap))
+                idx += 1
+            for p, prm in plan["in"][2]:
+                n = 1 if prm[2] is None else int(prm[2][1:-1])
+                for jj in range(n):
+                    L.append("  a[%d].o = mkobj(in_obj_id(%d, %d, %d, %d));" % (idx, k, p, v, jj))
+                    idx += 1
+            for p, prm in plan["out"][2]:
+                n = 1 if prm[2] is None else int(prm[2][1:-1])
+                for jj in range(n):
+                    L.append("  a[%d].o = Object_NULL;" % idx)
+                    idx += 1
+            L.append("  int32_t r = skel_invoke(&g_ctx, %d, a, ObjectCounts_pack(%d, %d, %d, %d));" % ((k,) + cnt))
+            L.append('  printf("rd %s %d status=%%d", r);' % (mname, v))
+            base = len(bi)
+            for j in range(len(bocap)):
+                L.append('  { size_t n = a[%d].b.size <= %d ? a[%d].b.size : %d; char tag[32]; snprintf(tag, sizeof tag, "bo%d"); if (r == 0) hexp(tag, bo%d, n); }' % (
+                    base + j, bocap[j], base + j, bocap[j], j, j))
+            oidx = len(bi) + len(bocap) + cnt[2]
+            for j in range(cnt[3]):
+                L.append('  if (r == 0) printf(" oo%d=obj:%%d", objid(a[%d].o));' % (j, oidx + j))
+            L.append('  printf("\\n");')
+            for j in range(len(bi)):
+                L.append("  free(bi%d);" % j)
+            for j in range(len(bocap)):
+                L.append("  free(bo%d);" % j)
+            L.append("}")
+            code.append("\n".join(L))
+            calls.append("  %s();" % fn)
+            exp = "rd %s %d status=0" % (mname, v)
+            for j, b in enumerate(bo):
+                exp += " bo%d=%s" % (j, hexs(b))
+            oo = []
+            for p, prm in plan["out"][2]:
+                n = 1 if prm[2] is None else int(prm[2][1:-1])
+                for jj in range(n):
+                    oo.append(out_obj(k, p, v, jj))
+            for j, o in enumerate(oo):
+                exp += " oo%d=obj:%d" % (j, o)
+            expected.append((mname, v, exp))
+    return "\n".join(code) + "\n", calls, expected
+
+
+def expected_transport(ctx, methods, valuations, only):
+    """the (op, counts, BI bytes, BO capacities) line the transport must log for a stub call, and the
+    BO bytes line after the call — computed from the Mink rule alone"""
+    out = []
+    for v in valuations:
+        for k, (mname, params) in enumerate(methods):
+            if mname not in only:
+                continue
+            bi, bocap, bo = ref_buffers(ctx, k, params, v)
+            cnt = ref_counts(ctx, params)
+            pre = "xport op=%d k=%d,%d,%d,%d" % ((k,) + cnt)
+            for j, b in enumerate(bi):
+                pre += " bi%d=%s" % (j, hexs(b))
+            for j, cap in enumerate(bocap):
+                pre += " bo%d.cap=%d" % (len(bi) + j, cap)
+            post = "xport ret=0"
+            for j, b in enumerate(bo):
+                post += " bo%d=%s" % (len(bi) + j, hexs(b))
+            out.append((mname, v, pre, post))
     return out
